@@ -125,4 +125,148 @@ example : validate .integer "+7".toList = true ∧ validate .integer "32768".toL
 example : validate .cabinet "cab1.cab".toList = true ∧ validate .cabinet "toolongname.cab".toList = false ∧
     validate .cabinet "a.b.text".toList = false := by decide
 
+/-! ### GUID -/
+
+theorem hex_size (c : Char) (h : isHex c = true) : c.utf8Size = 1 := by
+  have hle : c.val ≤ 127 := by
+    simp only [isHex, isDigit, Bool.or_eq_true, Bool.and_eq_true, decide_eq_true_eq] at h
+    have e1 : ('9' : Char).val = 57 := rfl
+    have e2 : ('f' : Char).val = 102 := rfl
+    have e3 : ('F' : Char).val = 70 := rfl
+    simp only [Char.le_def, UInt32.le_iff_toNat_le] at h ⊢
+    rw [e1, e2, e3] at h
+    have : (127 : UInt32).toNat = 127 := rfl
+    rw [this]
+    have a1 : (57 : UInt32).toNat = 57 := rfl
+    have a2 : (102 : UInt32).toNat = 102 := rfl
+    have a3 : (70 : UInt32).toNat = 70 := rfl
+    rw [a1, a2, a3] at h
+    omega
+  simp [Char.utf8Size, hle]
+
+theorem utf8Len_hex (l : List Char) (h : ∀ c ∈ l, isHex c = true) : utf8Len l = l.length := by
+  unfold utf8Len
+  induction l with
+  | nil => rfl
+  | cons c cs ih =>
+    simp only [List.map_cons, List.sum_cons, List.length_cons]
+    rw [hex_size c (h c (by simp)), ih (fun x hx => h x (by simp [hx]))]
+    omega
+
+theorem utf8Len_append (a b : List Char) : utf8Len (a ++ b) = utf8Len a + utf8Len b := by
+  simp [utf8Len, List.sum_append]
+
+theorem utf8Len_cons (c : Char) (b : List Char) : utf8Len (c :: b) = c.utf8Size + utf8Len b := by
+  simp [utf8Len]
+
+theorem dropLast_append_last {α} (l : List α) (x : α) (h : l.getLast? = some x) : l.dropLast ++ [x] = l := by
+  induction l with
+  | nil => cases h
+  | cons a t ih =>
+    cases t with
+    | nil => simp at h; simp [h]
+    | cons b t' =>
+      rw [List.getLast?_cons_cons] at h
+      simp only [List.dropLast_cons_cons, List.cons_append, ih h]
+
+/-- the GUID text form: `{8-4-4-4-12}` in hex digits, none of them a lower-case letter -/
+def GuidText (s : List Char) : Prop :=
+  ∃ a b c d e : List Char, s = '{' :: (List.intercalate ['-'] [a, b, c, d, e] ++ ['}']) ∧
+    a.length = 8 ∧ b.length = 4 ∧ c.length = 4 ∧ d.length = 4 ∧ e.length = 12 ∧
+    ∀ ch ∈ a ++ b ++ c ++ d ++ e, isHex ch = true ∧ isLower ch = false
+
+theorem inter5 (a b c d e : List Char) :
+    List.intercalate ['-'] [a, b, c, d, e] = a ++ '-' :: (b ++ '-' :: (c ++ '-' :: (d ++ '-' :: e))) := by
+  simp [List.intercalate]
+
+/-- **GUID**: `validate` accepts exactly the braced, hyphenated, upper-case hex form -/
+theorem guid_iff (s : List Char) : validate .guid s = true ↔ GuidText s := by
+  constructor
+  · intro h
+    simp only [validate, Bool.and_eq_true, beq_iff_eq, Bool.not_eq_true'] at h
+    obtain ⟨⟨⟨⟨-, hhead⟩, hlast⟩, hlow⟩, huuid⟩ := h
+    cases s with
+    | nil => cases hhead
+    | cons c0 t =>
+      simp only [List.head?_cons, Option.some.injEq] at hhead
+      subst hhead
+      simp only [List.tail_cons] at huuid
+      have htne : t ≠ [] := by
+        intro e; subst e; simp at hlast
+      have hlast' : t.getLast? = some '}' := by
+        rw [List.getLast?_cons_of_ne_nil htne] at hlast
+        exact hlast
+      have ht : t = t.dropLast ++ ['}'] := by
+        exact (dropLast_append_last t '}' hlast').symm
+      unfold uuidHyphenated at huuid
+      have hjoin := intercalate_splitOn '-' t.dropLast
+      cases hsp : splitOn '-' t.dropLast with
+      | nil => rw [hsp] at huuid; cases huuid
+      | cons a r1 =>
+        cases r1 with
+        | nil => rw [hsp] at huuid; cases huuid
+        | cons b r2 =>
+        cases r2 with
+        | nil => rw [hsp] at huuid; cases huuid
+        | cons c r3 =>
+        cases r3 with
+        | nil => rw [hsp] at huuid; cases huuid
+        | cons d r4 =>
+        cases r4 with
+        | nil => rw [hsp] at huuid; cases huuid
+        | cons e r5 =>
+        cases r5 with
+        | cons x r6 => rw [hsp] at huuid; cases huuid
+        | nil =>
+          rw [hsp] at huuid hjoin
+          simp only [Bool.and_eq_true, beq_iff_eq, List.all_eq_true] at huuid
+          obtain ⟨⟨⟨⟨⟨ha, hb⟩, hc⟩, hd⟩, he⟩, hhex⟩ := huuid
+          refine ⟨a, b, c, d, e, ?_, ha, hb, hc, hd, he, ?_⟩
+          · rw [hjoin]; rw [← ht]
+          · intro ch hch
+            refine ⟨hhex ch hch, ?_⟩
+            have hmem : ch ∈ '{' :: t := by
+              rw [ht, ← hjoin, inter5]
+              simp only [List.mem_append, List.mem_cons] at hch ⊢
+              rcases hch with (((h1 | h1) | h1) | h1) | h1 <;> simp [h1]
+            have := List.any_eq_false.mp hlow ch hmem
+            simpa using this
+  · rintro ⟨a, b, c, d, e, rfl, ha, hb, hc, hd, he, hall⟩
+    have hhex : ∀ ch ∈ a ++ b ++ c ++ d ++ e, isHex ch = true := fun ch h => (hall ch h).1
+    have hnosep : ∀ p ∈ [a, b, c, d, e], '-' ∉ p := by
+      intro p hp hm
+      have : '-' ∈ a ++ b ++ c ++ d ++ e := by
+        simp only [List.mem_cons, List.mem_nil_iff, or_false] at hp
+        simp only [List.mem_append]
+        rcases hp with rfl | rfl | rfl | rfl | rfl <;> simp [hm]
+      have := hhex '-' this
+      revert this; decide
+    have hsplit := splitOn_intercalate '-' [a, b, c, d, e] (by simp) hnosep
+    simp only [validate, Bool.and_eq_true, beq_iff_eq, Bool.not_eq_true']
+    refine ⟨⟨⟨⟨?_, rfl⟩, ?_⟩, ?_⟩, ?_⟩
+    · rw [inter5, utf8Len_cons, utf8Len_append, utf8Len_append, utf8Len_cons, utf8Len_append, utf8Len_cons,
+        utf8Len_append, utf8Len_cons, utf8Len_append, utf8Len_cons]
+      rw [utf8Len_hex a (fun x hx => hhex x (by simp [hx])), utf8Len_hex b (fun x hx => hhex x (by simp [hx])),
+        utf8Len_hex c (fun x hx => hhex x (by simp [hx])), utf8Len_hex d (fun x hx => hhex x (by simp [hx])),
+        utf8Len_hex e (fun x hx => hhex x (by simp [hx])), ha, hb, hc, hd, he]
+      rfl
+    · rw [List.getLast?_cons_of_ne_nil (by simp), List.getLast?_concat]
+    · rw [List.any_eq_false]
+      intro ch hch
+      rw [inter5] at hch
+      simp only [List.mem_cons, List.mem_append, List.mem_nil_iff, or_false] at hch
+      have key : ∀ x, x ∈ a ++ b ++ c ++ d ++ e → ¬ isLower x = true := fun x hx => by simp [(hall x hx).2]
+      rcases hch with rfl | ((h1 | rfl | h1 | rfl | h1 | rfl | h1 | rfl | h1) | rfl)
+      all_goals first | decide | exact key _ (by simp [h1])
+    · simp only [List.tail_cons, List.dropLast_concat]
+      unfold uuidHyphenated
+      rw [hsplit]
+      simp only [ha, hb, hc, hd, he, beq_self_eq_true, Bool.true_and, List.all_eq_true]
+      exact hhex
+
+example : GuidText "{34AB5C53-9B30-4E14-AEF0-2C1C7BA826C0}".toList :=
+  ⟨"34AB5C53".toList, "9B30".toList, "4E14".toList, "AEF0".toList, "2C1C7BA826C0".toList, by decide, rfl, rfl, rfl, rfl, rfl,
+    by decide⟩
+
+
 end MsiProofs.C07
